@@ -48,24 +48,30 @@ def apply(apret, identifiers=None, options=None, ret_details=False,
     # the previous preprocessing pipeline (such code is currently
     # implemented on the other side in `indent.py` (2021-08-16).
     apret.reset_data()
-    for ii, pid in enumerate(identifiers):
-        if pid in available():
-            meth = get_func(pid)
-            req = meth.steps_required
-            act = identifiers[:ii]
-            if req is not None and ((set(req) & set(act)) != set(req)):
-                raise ValueError(f"The preprocessing step '{pid}' requires"
-                                 f" the steps {meth.steps_required}!")
-            # create a copy of the dictionary (if it exists) so that
-            # `ret_details` is not written to it
-            kwargs = copy.deepcopy(options.get(pid, {}))
-            if "ret_details" in inspect.signature(meth).parameters:
-                # only set `ret_details` if method accepts it
-                kwargs["ret_details"] = ret_details
-            details[pid] = meth(apret, **kwargs)
-        else:
-            msg = "The preprocessing method '{}' does not exist!"
-            raise KeyError(msg.format(pid))
+    try:
+        for ii, pid in enumerate(identifiers):
+            if pid in available():
+                meth = get_func(pid)
+                req = meth.steps_required
+                act = identifiers[:ii]
+                if req is not None and ((set(req) & set(act)) != set(req)):
+                    raise ValueError(
+                        f"The preprocessing step '{pid}' requires"
+                        f" the steps {meth.steps_required}!")
+                # create a copy of the dictionary (if it exists) so that
+                # `ret_details` is not written to it
+                kwargs = copy.deepcopy(options.get(pid, {}))
+                if "ret_details" in inspect.signature(meth).parameters:
+                    # only set `ret_details` if method accepts it
+                    kwargs["ret_details"] = ret_details
+                details[pid] = meth(apret, **kwargs)
+            else:
+                msg = "The preprocessing method '{}' does not exist!"
+                raise KeyError(msg.format(pid))
+    except BaseException:
+        # Do not leave a partially preprocessed dataset behind.
+        apret.reset_data()
+        raise
     # only return details if required
     return details if ret_details else None
 
